@@ -6,7 +6,8 @@ from ..index import AnalysisError, dotted, src, walk_no_nested
 from ..cfg import CFG
 from ..util import (node_calls, node_call_names, calls_named, reach_from, literal_prefix, arg, ancestors, func_cfg,
                     cfg_nodes_containing, last_name, own_expr)
-from .slots import BTM, BAMFUNC, NON_SUCCESS_STATUS, BENIGN_CALLS
+from .slots import BTM, BAMFUNC, NON_SUCCESS_STATUS, BENIGN_CALLS, TAGGING
+from ..util import last_name
 from . import C05_shared
 
 WRITER_CONTEXTS = {'sorted_bam_file'}      # context managers whose *exit* finalises (close, re-header, sort, index) the output
@@ -214,6 +215,25 @@ def r5(ctx):
     if missing:
         raise AnalysisError(f'C20 fixture: expected-positive constructs not flagged: {sorted(missing)}')
     ctx.emit('C20-R5', True, BTM, None, f'{len(expect)} expected-positive fixture constructs flagged by C20-R1', nontrivial=False)
+
+
+@rule('C20', 'C20-R6', 'no records vanish under a success status in the workers: a per-job BAM is kept iff any of its tasks wrote a molecule (shared with '
+                       'C05-R7), and only a time-out is turned into a skipped ("blacklisted") region - every other failure of a worker propagates')
+def r6(ctx):
+    from . import C05
+    from ..core import include
+    include(ctx, C05, [C05.r7], 'C20-R6')
+    g = ctx.fn(TAGGING, 'run_tagging_tasks')
+    hs = [h for t in walk_no_nested(g) if isinstance(t, ast.Try) for h in t.handlers
+          if any(isinstance(c, ast.Call) and last_name(dotted(c.func) or '') == 'run_tagging_task' for b in t.body for c in ast.walk(b))]
+    ctx.need('C20-R6', len(hs), 1, 'except arms around run_tagging_task in the worker')
+    for k, h in enumerate(hs):
+        types = [None] if h.type is None else [dotted(t) for t in (h.type.elts if isinstance(h.type, ast.Tuple) else [h.type])]
+        swallows = not any(isinstance(x, ast.Raise) for x in walk_no_nested(h))
+        ok = (not swallows) or types == ['TimeoutError']
+        ctx.emit('C20-R6', ok, TAGGING, h, f'worker except arm catches {types}' + (' and records the region as timed out' if swallows else ' and re-raises') +
+                 ('' if ok else ': failures other than a time-out are reported as a skipped region and the run still ends with a success status'),
+                 key=f'worker-swallows-only-timeout:{k}', what='run_tagging_tasks: an exception other than TimeoutError is swallowed as a time-out')
 
 
 META = {
